@@ -20,7 +20,9 @@ def base_cases(thorough):
   out = []
   for gen in (families.c01_cases(False), families.c02_cases(False)):
     by = {}
-    for c in gen: by.setdefault(c.family, []).append(c)
+    for c in gen:
+      if c.family in families.FINDING_FAMILIES: continue
+      by.setdefault(c.family, []).append(c)
     for fam, cs in by.items():
       st = step if fam not in ('EXPR', 'FUNC', 'INJ', 'STR') else (1 if fam in ('EXPR', 'STR') else max(1, step // 4))
       out += cs[::st]
@@ -86,6 +88,9 @@ SIGNATURE_LEVEL = {
   'fact-then-rule': (['T(1);', 'T(x) :- Q(x);', 'Q("a");', 'Q("b");'], 'T', 'reject'),
   'aggregate-then-compare': (['A(1, "a");', 'A(2, "b");', 'P(x, l? List= y) distinct :- A(x, y);', 'T(x) :- P(x, l:), 1 in l;'], 'T', 'reject'),
   'sibling-combines-reuse-a-local-name': (['A(1, "a");', 'A(2, "b");', 'B(1);', 'T(x, s, t) :- B(x), s = Sum{y :- A(y, z)}, t = List{y :- A(z, y)};'], 'T', 'accept'),
+  'rules-with-different-fields': (['P(a: 1, b: "s");', 'P(a: 3);', 'T(a) :- P(a:);'], 'T', 'reject'),
+  'rules-with-different-arity': (['P(1, 2);', 'P(3);', 'T(a) :- P(a);'], 'T', 'reject'),
+  'positional-and-colN-heads': (['P(1, "a");', 'P(col1: "b", col0: 2);', 'T(x, y) :- P(x, y);'], 'T', 'accept'),
   'three-sibling-combines-reuse-a-local-name': (['A(1, "a");', 'A(2, "b");', 'B(1);', 'T(x, s, t, u) :- B(x), s = Sum{y :- A(y, z)}, t = List{y :- A(z, y)}, u = Count{y :- A(y, y2)};'], 'T', 'accept'),
   'sibling-negations-reuse-a-local-name': (['A(1, "a");', 'A(2, "b");', 'B(1);', 'T(x) :- B(x), ~A(y, "c"), ~A(3, y);'], 'T', 'accept'),
   'records-same-fields': (['RN(r: {a: 1, b: "p"});', 'RN(r: {a: 2, b: "q"});', 'RS(r: {b: "p", a: 1});', 'RS(r: {b: "z", a: 2});', 'T(r) :- RN(r:), RS(r:);'], 'T', 'accept'),
